@@ -4,6 +4,15 @@ from harness.drivers import conj, network
 
 
 def run(ck):
+    # Machine.tla: TLC checks Impl |= Props on the bounded instance and exports programs (spec -> code)
+    from vlib import machine
+    from harness import gen as _gen
+    _tids = _gen.Tids(100000)
+    mprogs = []
+    mprogs += machine.run_machine(ck, "Z2", "fermionic", "PoolZ2s", "OpsStruct", rank=2, depth=3, mod=80, tids=_tids)
+    if ck.tier != "quick":
+        mprogs += machine.run_machine(ck, "U1", "fermionic", "PoolU1s", "OpsStruct", rank=2, depth=3, mod=200, tids=_tids)
+    ck.conform(mprogs)
     q = ck.tier == "quick"
     tids = gen.Tids()
     progs = conj.programs(ck.seed, 150 if q else 3000, tids=tids)
